@@ -121,3 +121,38 @@ def wf_step(E, s):
         for j, r in enumerate(res):
             if isinstance(r, E.tt.TT):
                 wf(E, 'result%d' % j, r)
+
+
+@scenario
+def op_preserve_shape(E, s):
+    """C06 at the shape level for routines whose values need a factorization: operands keep their core list, the very
+    same core tensors, and their metadata (ranks, shape, kind, dtype)."""
+    name = s['op']
+    kinds, f = EXTRA[name] if name in EXTRA else OPS[name]
+    d, B = s['d'], s['B']
+    first = kinds[0]
+    k0 = 'ttm' if (first in ('ttm',) or (first == 'any' and s.get('ttm'))) else 'tt'
+    x, N, M, R = s_tt(E, 'x', d, k0, B)
+    ops = [x]
+    for i, k in enumerate(kinds[1:], 1):
+        nm = 'yzw'[i - 1]
+        if k == 'same':
+            y, _, _, _ = s_tt(E, nm, d, k0, B, same={'N': N, 'M': M} if k0 == 'ttm' else {'N': N})
+        elif k == 'tt@N':
+            y, _, _, _ = s_tt(E, nm, d, 'tt', B, same={'N': N})
+        else:
+            raise ValueError(k)
+        ops.append(y)
+    lists = [o.cores for o in ops]
+    tensors = [list(o.cores) for o in ops]
+    metas = [(bool(o.is_ttm), list(o.N), list(o.M) if o.is_ttm else None, list(o.R), [list(c.shape) for c in o.cores], [str(c.dtype) for c in o.cores]) for o in ops]
+    ok, res, exc = attempt(E, lambda: f(E, ops, s))
+    for i, o in enumerate(ops):
+        E.true('same_core_list_%d' % i, o.cores is lists[i] and len(o.cores) == len(tensors[i]) and all(a is b for a, b in zip(o.cores, tensors[i])))
+        m = (bool(o.is_ttm), list(o.N), list(o.M) if o.is_ttm else None, list(o.R), [list(c.shape) for c in o.cores], [str(c.dtype) for c in o.cores])
+        same = (m[0] == metas[i][0]) and all_eq(m[1], metas[i][1]) and (m[2] is None or all_eq(m[2], metas[i][2])) and all_eq(m[3], metas[i][3]) and m[5] == metas[i][5]
+        for a, b in zip(m[4], metas[i][4]):
+            same = same & all_eq(a, b)
+        E.true('meta_%d' % i, same)
+    if ok and isinstance(res, E.tt.TT):
+        E.true('result_own_list', all(res.cores is not l for l in lists))
